@@ -219,6 +219,9 @@ where
             ("opt_iter_cast", hint_law_bi("opt_iter_cast", || v.opt_iter_cast::<f64>(), &c.script)?),
             ("to_opt_iter", hint_law_bi("to_opt_iter", || v.to_opt_iter(), &c.script)?),
             ("map", hint_law_bi("TIter::map", || TIter::map(v, |x| x), &c.script)?),
+            // the wrapper that turns any iterator of known length into a trusted one, consumed from both ends
+            ("to_trust", hint_law_bi("to_trust", || v.titer().to_trust(len), &c.script)?),
+            ("to_trust.rev", hint_law_bi("to_trust.rev", || v.titer().to_trust(len).rev(), &c.script)?),
         ] {
             if h != len {
                 return fail(format!("{}:len", name), format!("{} of a container of length {} announces {}", name, len, h));
@@ -393,6 +396,34 @@ fn check_generators(c: &GCase, obs: &mut Obs) -> CheckResult {
     let v: Vec<f64> = Vec1Create::range(Some(c.start as f64 * sc), c.end as f64 * sc, Some(c.step as f64 * sc));
     if v.len() != cnt {
         return fail("range<f64>:len", format!("range({},{},{})*{} has {} elements, progression has {}", c.start, c.end, c.step, sc, v.len(), cnt));
+    }
+    // non-dyadic steps: (end-start)/step is not exact, so no independent count exists; the law is only
+    // that the generator yields exactly what it announces (instrumented container, collected safely)
+    for dec in [0.1f64, 0.3, 0.01, 0.7, 1e-3] {
+        let (a, b, st) = (c.start as f64 * dec, c.end as f64 * dec, c.step as f64 * dec);
+        tvh::chk::reset_log();
+        let safe: tvh::chk::ChkOut<f64> = Vec1Create::range(Some(a), b, Some(st));
+        let log = tvh::chk::take_log();
+        if let Some(v) = log.violations.first() {
+            return fail("range<f64>:hint!=count", format!("range({:?},{:?},{:?}): {}", a, b, st, v));
+        }
+        let real: Vec<f64> = Vec1Create::range(Some(a), b, Some(st));
+        if real.len() != safe.0.len() {
+            return fail("range<f64>:hint!=count", format!("range({:?},{:?},{:?}): trusted collection has {} elements, safe iteration {}", a, b, st, real.len(), safe.0.len()));
+        }
+        let safe32: tvh::chk::ChkOut<f32> = Vec1Create::range(Some(a as f32), b as f32, Some(st as f32));
+        if let Some(v) = tvh::chk::take_log().violations.first() {
+            return fail("range<f32>:hint!=count", format!("range({:?},{:?},{:?}) as f32: {}", a, b, st, v));
+        }
+        let _ = safe32;
+    }
+    tvh::chk::reset_log();
+    let lin: tvh::chk::ChkOut<f64> = Vec1Create::linspace(Some(c.start as f64 * 0.1), c.end as f64 * 0.3, c.n);
+    if let Some(v) = tvh::chk::take_log().violations.first() {
+        return fail("linspace:hint!=count", format!("linspace n={}: {}", c.n, v));
+    }
+    if lin.0.len() != c.n {
+        return fail("linspace:len", format!("linspace n={} yields {} elements", c.n, lin.0.len()));
     }
     let v: Vec<i32> = Vec1Create::range(Some(c.start), c.end, Some(c.step));
     if v.len() != cnt {
